@@ -61,6 +61,44 @@ theorem C11_dead_stays_dead (w : World) (d : Directive) (h : w.dead)
     · exact ⟨hdead' _ rfl rfl, rfl, rfl⟩
   case cancel => exact ⟨hdead, trivial, trivial⟩
 
+/-- **The documented results on a dead handle**: every network operation reports `Disconnected`,
+`disconnect()` reports `Ok`, and both `is_connected()` and `can_publish(qos)` are false. -/
+theorem C11_dead_results (w : World) (h : w.dead) :
+    (∀ r, (w.execDirective (.publish r)).lastRes = some (.error .disconnected)) ∧
+    (∀ r, (w.execDirective (.subscribe r)).lastRes = some (.error .disconnected)) ∧
+    (∀ r, (w.execDirective (.unsubscribe r)).lastRes = some (.error .disconnected)) ∧
+    (w.execDirective .poll).lastRes = some (.error .disconnected) ∧
+    (w.execDirective .recv).lastRes = some (.error .disconnected) ∧
+    (w.execDirective .drive).lastRes = some (.error .disconnected) ∧
+    (∀ d, (w.execDirective (.disconnect d)).lastRes = some (.ok ())) ∧
+    w.live = false ∧ (∀ q, (w.live && canPublishS w.sess.data w.sess.rt q) = false) := by
+  have hl := dead_live_false h
+  obtain ⟨⟨c, hc, hcl⟩, hf⟩ := h
+  refine ⟨?_, ?_, ?_, ?_, ?_, ?_, ?_, hl, fun q => by rw [hl]; rfl⟩
+  · intro r; simp [World.execDirective, World.startOp, hc, World.cancelFut, hf, World.live, hcl, World.finishErr, World.finish]
+  · intro r; simp [World.execDirective, World.startOp, hc, World.cancelFut, hf, World.live, hcl, World.finishErr, World.finish]
+  · intro r; simp [World.execDirective, World.startOp, hc, World.cancelFut, hf, World.live, hcl, World.finishErr, World.finish]
+  · simp [World.execDirective, World.startOp, hc, World.cancelFut, hf, driveEnter_dead, World.live, hcl, World.finishErr, World.finish]
+  · simp [World.execDirective, World.startOp, hc, World.cancelFut, hf, driveEnter_dead, World.live, hcl, World.finishErr, World.finish]
+  · simp [World.execDirective, World.startOp, hc, World.cancelFut, hf, driveEnter_dead, World.live, hcl, World.finishErr, World.finish]
+  · intro d; simp [World.execDirective, World.startOp, hc, World.cancelFut, hf, World.live, hcl, World.finish]
+
+/-- **For good**: any sequence of API calls on a dead handle leaves it dead, the transports and the
+session untouched. -/
+theorem C11_dead_forever (w : World) (h : w.dead) (ops : List Directive)
+    (hops : ∀ d ∈ ops, match d with
+      | .publish _ | .subscribe _ | .unsubscribe _ | .disconnect _ | .poll | .recv | .drive
+      | .d _ | .go | .tick _ | .cancel => True
+      | _ => False) :
+    (ops.foldl World.execDirective w).dead ∧ (ops.foldl World.execDirective w).nets = w.nets ∧
+    (ops.foldl World.execDirective w).sess = w.sess := by
+  induction ops generalizing w with
+  | nil => exact ⟨h, rfl, rfl⟩
+  | cons d ds ih =>
+    have h1 := C11_dead_stays_dead w d h (hops d (by simp))
+    obtain ⟨a, b, c⟩ := ih (w.execDirective d) h1.1 (fun x hx => hops x (by simp [hx]))
+    exact ⟨a, b.trans h1.2.1, c.trans h1.2.2⟩
+
 /-- A transport error on the write of a queued packet (retained packet, PUBREL, acknowledgement,
 PINGREQ) kills the handle, whoever was writing. -/
 theorem C11_stepWrite_fault_latches (fuel : Nat) (w : World) (ctx : StepCtx) (pkt : Flushed) (bytes : Bytes)
